@@ -202,10 +202,17 @@ def stepC20 (d : DSt) (op : String) (got : String) : StepResult DSt :=
       let gotCb := listOf (field got "cb")
       let (sp1, f1) := if isCrash got then (d.sp, []) else specPre d.sp gotPre
       let d1 := { d with m := m1, sp := sp1 }
+      -- a goroutine blocks for ever inside a callback the engine runs under its PIT lock: no pending Interest can be
+      -- resolved any more, no new one expressed
+      let locked : List SpecFail :=
+        if gotRes == "HANG-engine-locked" then
+          [⟨"resolves-exactly-once", "engine-locked",
+            s!"the engine is locked up for good: a callback it runs under the PIT lock blocks (result of a management command whose Interest could not be sent, nobody reads it); the {(sp1.ints.filter (!·.resolved)).length} pending Interest(s) can never be resolved"⟩]
+        else []
       let mk (d2 : DSt) (res : String) (cbs : List Cb) (fails : List SpecFail) (cov : List String) (nt : Bool := false) :
           StepResult DSt :=
         { st := d2, expected := some s!"pre={preTxt} res={res} cb={fmtCb d2 cbs}",
-          spec := crash ++ f1 ++ fails,
+          spec := crash ++ locked ++ f1 ++ fails,
           cov := cov ++ (if preCbs.isEmpty then [] else ["timeout"]), nontrivial := nt }
       -- Express of a given final name; `resOk` is what the harness prints on success
       let doExpress (label nameT cbpT lifeT resOk : String) (covx : List String) : StepResult DSt :=
@@ -262,6 +269,11 @@ def stepC20 (d : DSt) (op : String) (got : String) : StepResult DSt :=
         if w == "w1" then ["arrival-lp"] else if w == "w2" then ["arrival-lp-token"] else ["arrival-bare"]
       match args with
       | ["express", label, nameT, cbpT, lifeT] => doExpress label nameT cbpT lifeT "ok" []
+      | ["mgmtf", _nameT] =>
+        -- Engine.RegisterRoute (ExecMgmtCmd) while the face cannot send: the call reports the error at once. The
+        -- command Interest the engine expressed for itself stays pending for its lifetime and then times out inside
+        -- the engine; it is no Interest of the application (no callback of the application, no output)
+        mk d1 (if d.dummy then "skip" else "senderr") [] [] ["mgmt-send-fails"]
       | ["expressf", label, nameT, cbpT, lifeT] =>
         -- the face's Send fails: Express returns the error, the entry stays in the PIT and times out.
         -- SPEC: at most one callback (whether an Interest whose Express failed must be resolved at all is
